@@ -39,7 +39,9 @@ func codecCore(ops *typeOps) {
 	boundParams()
 	vrt.SetOwner("user")
 	pv := ops.NewZero()
+	fixedShape = vrt.ParamOr("shape", -1) // >= 0: one fixed shape (0 everything nil/absent/empty, 2 everything present with one element)
 	ops.Fill(pv, "v")
+	fixedShape = -1
 	rv := ops.ToRef(pv)
 	ref := refEncodeStruct(ops.St, rv, nil)
 	n := len(ref)
